@@ -3,3 +3,8 @@ check("C05",
       "Every well-typed operator sequence of up to three binary operators (19 operators), every parenthesisation of them and every unary placement for up to two operators is executed on the real parser/VM and compared, structurally and by value on 8 operand vectors, with go/parser's grouping; sequences of four operators are sampled. Exploration: it decides the executed expressions only, but the space up to three operators is covered completely.",
       "Trusts go/parser and native Go operators as the specification; operands are int32/bool variables bound through VM.Set.",
       "DESIGN.md §5 C05")
+check("C04",
+      "runtime differential monitoring: value and dynamic type returned by script functions vs the same operation compiled natively into the harness (Go compiler arithmetic), exhaustive over all 8-bit operand pairs",
+      "Every binary operator, compound assignment, ++/--, unary operator, conversion, constant operand (literal, named untyped and typed constants) and typed declaration is executed by the real compiler+VM, with the operands held in locals (fused opcodes), globals, struct fields, slice and map elements, and compared bit-for-bit (including -0, NaN and the dynamic type, and panic vs error) with native Go. int8/uint8: all 65536 operand pairs per operator; int32/uint32/float64: boundary x boundary plus random pairs. Exploration level: complete for the 8-bit types, sampled for the wide ones.",
+      "Trusts the Go compiler that builds the harness as the definition of Go arithmetic. Mixed operand types are invalid Go and not generated, except shift counts (any integer type). float->int conversions out of range / NaN are implementation-defined in Go and left out.",
+      "DESIGN.md §5 C04")
